@@ -1007,6 +1007,14 @@ func (it *Interp) run(fn *ssa.Function, b, prev, until *ssa.BasicBlock, st *stat
 						it.unsup("if-conversion nesting too deep in %s (data-dependent loop?)", fn.String())
 						return frameResult{st: st, returned: true, ret: OpaqueV{"nest"}}
 					}
+					// copying the state for the second arm is the expensive part of if-conversion: charge
+					// it to the fuel, so that a run that keeps branching on unknown values over a large
+					// memory ends as "fuel exhausted" instead of taking minutes
+					cells := 0
+					for _, m := range st.mem {
+						cells += len(m)
+					}
+					it.Fuel -= cells / 16
 					sT := st.clone()
 					rT := it.run(fn, b.Succs[0], b, j, sT, depth)
 					rF := it.run(fn, b.Succs[1], b, j, st, depth)
@@ -1205,6 +1213,14 @@ func (it *Interp) mux(c *Node, a, b Value) Value {
 }
 
 func (it *Interp) mergeStates(c *Node, a, b *state) *state {
+	if it.Fuel > 0 {
+		// merging is linear in the memory: charged like the copy (see run)
+		cells := 0
+		for _, m := range a.mem {
+			cells += len(m)
+		}
+		it.Fuel -= cells / 16
+	}
 	m := &state{mem: map[*MemObj]map[string]Value{}, regs: map[ssa.Value]Value{}}
 	objs := map[*MemObj]bool{}
 	for o := range a.mem {
@@ -2486,6 +2502,12 @@ func (it *Interp) call(st *state, x *ssa.Call, c *ssa.CallCommon, depth int) Val
 	}
 	callee := c.StaticCallee()
 	var bind []Value
+	if callee != nil && !c.IsInvoke() && len(callee.FreeVars) > 0 {
+		// a closure called directly: its captured values come with the function value
+		if fv, ok := it.val(st, c.Value).(FuncV); ok && fv.Fn == callee {
+			bind = fv.Bind
+		}
+	}
 	if callee == nil && !c.IsInvoke() {
 		// a call through a function value that resolves to one function (closure or method value)
 		if fv, ok := it.val(st, c.Value).(FuncV); ok && fv.Fn != nil {
